@@ -59,9 +59,10 @@ def handleEval (r : Req) : String :=
         | _ => s!" tok={(s.dmap[m2.ctx.ip]?).getD 0}"
       s!"{outcomeStr o}{tok}@{dump r.setup.full m2}"
 
-/-- depth budget of the structural evaluator in the driver (programs run under an instruction limit of
-    a few thousand; deeper evaluations answer `timeout`, which is inconclusive, never a disagreement) -/
-def structFuel : Nat := 2500
+/-- depth budget of the structural evaluator in the driver: more than the instruction limit the programs run
+    under (4000), so an evaluation that runs out of it belongs to a program the VM cannot finish either; a VM
+    that finishes while the evaluator does not is reported as a difference (a loop that falls through) -/
+def structFuel : Nat := 6000
 
 /-- observable part of a machine for the structural comparison: everything but ip, meter and log -/
 def obs (m : Mach) : String :=
@@ -88,7 +89,7 @@ def handleStruct (r : Req) : String :=
         | some (.panic p, m2) => if p.startsWith "model:" then "unsupported" else s!"panic@{obs m2}"
         | some (.ok _, m2) => s!"ok@{obs m2}"
         | some (.err e, m2) => if isModelGap (.err e : Outcome Unit) then "unsupported" else s!"err {errStr e} tok={(s.dmap[m2.ctx.ip]?).getD 0}@{obs m2}"
-      let ev := match evalS nativeProg structFuel st m1 with
+      let ev := match evalS nativeProg (tabOf st) structFuel st m1 with
         | .ok m2 => s!"ok@{obs m2}"
         | .err e t m2 => if isModelGap (.err e : Outcome Unit) then "unsupported" else s!"err {errStr e} tok={t}@{obs m2}"
         | .panic p t m2 => if p.startsWith "model:" then "unsupported" else s!"panic@{obs m2}"
@@ -96,7 +97,9 @@ def handleStruct (r : Req) : String :=
         | .exitCase _ => "stray-exitcase"
         | .timeout => "timeout"
       if vm == "unsupported" || ev == "unsupported" then "unsupported"
-      else if vm == "timeout" || ev == "timeout" then s!"tv={tv} sem=timeout"
+      -- the VM stopped at the instruction limit (the structural evaluator does not count instructions): the harness
+      -- expects `timeout` there, whatever the evaluator says
+      else if vm == "timeout" || vm.startsWith "err ErrorMsg:insn_limit" then s!"tv={tv} sem=timeout"
       else s!"tv={tv} sem={if vm == ev then "same" else s!"DIFF vm={vm} structural={ev}"}"
 
 def handle (args : List String) : String :=
